@@ -253,6 +253,20 @@ class Event:
             out.append(t if pol else f"not ({t})")
         return out
 
+    def cond_texts_x(self, fn: Optional[ast.AST] = None) -> List[str]:
+        """cond_texts() with local names replaced by what they were assigned from (alternatives joined by ' | '): a
+        condition hoisted into a local (`undocumented = not item.doc_list`) reads the same as the inline one"""
+        out = []
+        for test, pol, subst in self.conds:
+            alts = []
+            for x in expand_locals(test, fn or self.fn):
+                t = unparse_subst(x, subst)
+                if t not in alts:
+                    alts.append(t)
+            t = " | ".join(alts)
+            out.append(t if pol else f"not ({t})")
+        return out
+
     def __repr__(self):
         return f"<{self.kind} {self.text()[:60]} if {self.cond_texts()}>"
 
